@@ -155,7 +155,10 @@ def run_population(ck, rng, scratch, tpl, files, time_cov, probes, use_model=Tru
             if p.get("emptydir") and tpl.dirs and tpl.is_temporal():
                 fake = G.File(-1, p["t"], p["t"], {u: G.USER_VALUES[u][0] for u in tpl.users()}, ["x"] * tpl.n_stars())
                 os.makedirs(os.path.join(root, *G.render(tpl, fake)[:-1]), exist_ok=True)
-        fs = G.make_fileset(root, tpl, time_cov, spelling=spelling, handler=FileHandler(reader=lambda info, **kw: os.fspath(info)))
+        make = lambda **kw: G.make_fileset(root, tpl, time_cov, spelling=spelling,
+                                           handler=FileHandler(reader=lambda info, **kw2: os.fspath(info)), **kw)
+        fs0 = make()
+        fs = fs0
         paths_of = {i: p for p, i in ids.items()}
         honour = G.honours(tpl, files)
         base_case = {"op": "closest", "template": tpl.to_json(), "files": [f.to_json() for f in files],
@@ -190,8 +193,7 @@ def run_population(ck, rng, scratch, tpl, files, time_cov, probes, use_model=Tru
         for k, p in enumerate(probes):
             t = p["t"]
             case = dict(base_case, probe=dict(C1.query_json(dict(p, start=None, end=None)), t=G.iso(t)))
-            fs.exclude_files([paths_of[i] for i in p["xnames"]])
-            fs.exclude_times(list(p["xtimes"]) or None)
+            fs = C1.excluded_fileset(fs0, make, p, paths_of)      # methods, or constructor argument exclude=[…]
             check_exact_name(ck, fs, root, ids, tpl, files, p, case)
             targ = t.isoformat(sep=" ") if p.get("as_str") else t       # the API also takes time strings
             try:
@@ -277,7 +279,7 @@ def gen_probes(rng, tpl, files, n):
         probes.append({"t": t, "kind": kind, "onres": onres, "filters": C1.gen_filters(rng, tpl, files) if rng.random() < 0.5 else None,
                        "xnames": xn, "xtimes": xt, "via": rng.choice(["find_closest", "find_closest", "getitem"]),
                        "emptydir": rng.random() < 0.2, "sort": False, "bundle": None, "nferr": True, "only_path": False,
-                       "as_str": rng.random() < 0.15 and 1700 < t.year < 2250})
+                       "as_str": rng.random() < 0.15 and 1700 < t.year < 2250, "excl_ctor": rng.random() < 0.4})
     return probes
 
 
